@@ -465,6 +465,42 @@ func templates(k *chain.Keys) []template {
 			}
 			return w.UseV2Renew(e, f)
 		}, none},
+		{"v2 signed payment carrying the expiration of a contract", func(w *chain.World) (chain.Use, bool) {
+			if !v2ok(w) {
+				return chain.Use{}, false
+			}
+			p, ok := findSC(w, k.Addr(chain.AddrV2))
+			if !ok {
+				return chain.Use{}, false
+			}
+			for _, id := range chain.SortedIDs(w.Store.V2FC) {
+				e := w.Store.V2FC[types.FileContractID(id)]
+				if w.ChildHeight() > e.V2FileContract.ExpirationHeight {
+					t := types.V2Transaction{SiacoinInputs: []types.V2SiacoinInput{{Parent: p}},
+						SiacoinOutputs:          []types.SiacoinOutput{{Value: p.SiacoinOutput.Value.Sub(chain.Fee), Address: k.Addr(chain.AddrV2b)}},
+						FileContractResolutions: []types.V2FileContractResolution{{Parent: e.Copy(), Resolution: &types.V2FileContractExpiration{}}}, MinerFee: chain.Fee}
+					w.SignV2(&t)
+					return chain.Use{Name: "v2pay+expire", V2: &t}, true
+				}
+			}
+			return chain.Use{}, false
+		}, none},
+		{"v2 signed payment carrying a contract revision", func(w *chain.World) (chain.Use, bool) {
+			e, ok := contract(w)
+			if !ok || !v2ok(w) {
+				return chain.Use{}, false
+			}
+			p, ok := findSC(w, k.Addr(chain.AddrV2))
+			if !ok {
+				return chain.Use{}, false
+			}
+			u := w.UseV2Revise(e, e.V2FileContract, 1)
+			u.V2.SiacoinInputs = []types.V2SiacoinInput{{Parent: p}}
+			u.V2.SiacoinOutputs = []types.SiacoinOutput{{Value: p.SiacoinOutput.Value.Sub(chain.Fee), Address: k.Addr(chain.AddrV2b)}}
+			u.V2.MinerFee = chain.Fee
+			w.SignV2(u.V2)
+			return u, true
+		}, none},
 		{"v2 attestation", func(w *chain.World) (chain.Use, bool) {
 			if !v2ok(w) {
 				return chain.Use{}, false
@@ -499,16 +535,22 @@ func worlds(c *vf.Ctx, spec chain.NetSpec, keys *chain.Keys, maxH uint64, each f
 		c.HarnessError("genesis: %v", p)
 		return
 	}
-	rotated := false
+	rotated, formedV1, formedV2, formedShort := false, false, false, false
 	for w.ChildHeight() <= maxH {
 		each(w)
 		bc := w.NewBlockCtx()
 		h := w.ChildHeight()
-		// keep contracts alive: form a v1 contract early, a v2 contract as soon as allowed, then rotate its renter key once
+		// keep contracts alive: form a v1 contract early, a v2 contract as soon as allowed, then two short-lived v2 contracts
+		// (left to expire unresolved: from then on there are always two contracts an expiration could name), then rotate
+		// the long-lived contract's renter key once
 		switch {
-		case len(w.Store.FC) == 0 && h < spec.Require && chain.V1Form(20, 2, 100).Do(bc):
-		case len(w.Store.V2FC) == 0 && h >= spec.Allow && chain.V2Form(20, 2, 100).Do(bc):
-		case len(w.Store.V2FC) > 0 && !rotated && chain.V2Revise("keys").Do(bc):
+		case !formedV1 && h < spec.Require && chain.V1Form(20, 2, 100).Do(bc):
+			formedV1 = true
+		case !formedV2 && h >= spec.Allow && chain.V2Form(20, 2, 100).Do(bc):
+			formedV2 = true
+		case formedV2 && !formedShort && chain.Seq("short contracts", chain.V2FormSalted(1, 1, 100, 1), chain.V2FormSalted(1, 1, 100, 2)).Do(bc):
+			formedShort = true
+		case formedShort && !rotated && chain.V2Revise("keys").Do(bc):
 			rotated = true
 		}
 		b, bs := w.BuildBlock(bc.V1, bc.V2, chain.BlockOpts{})
@@ -681,6 +723,43 @@ func probeTemplate(c *vf.Ctx, w *chain.World, tp template) {
 				w.SignRenewal(rn, 3, 3)
 				check("renewal signed by foreign keys")
 				*rn = old
+			}
+		}
+		// re-targeting: in a transaction with a signed input, every contract a revision or resolution names is replaced
+		// by every OTHER live contract (whole element: id, contents and proof) - nothing but the input signature binds it
+		signedInput := false
+		for i := range t.SiacoinInputs {
+			signedInput = signedInput || len(t.SiacoinInputs[i].SatisfiedPolicy.Signatures) > 0
+		}
+		for i := range t.SiafundInputs {
+			signedInput = signedInput || len(t.SiafundInputs[i].SatisfiedPolicy.Signatures) > 0
+		}
+		if signedInput {
+			others := func(id types.FileContractID) (out []types.V2FileContractElement) {
+				for _, oid := range chain.SortedIDs(w.Store.V2FC) {
+					if e := w.Store.V2FC[types.FileContractID(oid)]; e.ID != id {
+						out = append(out, e.Copy())
+					}
+				}
+				return
+			}
+			for i := range t.FileContractRevisions {
+				old := t.FileContractRevisions[i].Parent
+				for j, e := range others(old.ID) {
+					t.FileContractRevisions[i].Parent = e
+					check(fmt.Sprintf("retarget revision %d to other live contract #%d", i, j))
+					c.Count("retarget_probes", 1)
+				}
+				t.FileContractRevisions[i].Parent = old
+			}
+			for i := range t.FileContractResolutions {
+				old := t.FileContractResolutions[i].Parent
+				for j, e := range others(old.ID) {
+					t.FileContractResolutions[i].Parent = e
+					check(fmt.Sprintf("retarget resolution %d to other live contract #%d", i, j))
+					c.Count("retarget_probes", 1)
+				}
+				t.FileContractResolutions[i].Parent = old
 			}
 		}
 		for i := range t.Attestations {
@@ -1037,7 +1116,7 @@ func eraOf(s chain.NetSpec, parentHeight uint64) int {
 func run(c *vf.Ctx) {
 	c.FullScope = true // the whole stated space takes about a minute: both tiers run it
 	c.Set("scope_note", "quick and thorough tiers run the same (full) scope")
-	c.Set("rule", "for every network family and EVERY height up to the horizon (one state per height, contracts formed and keys rotated on the way) every applicable signed template (9 v1, 11 v2) is validated untampered (must be accepted) and under every single-point tampering: reflection walk over every field of the signed transaction (+-1, first/last byte flips of every hash/key/address/signature, drop/duplicate of every list element), exchange of the contents of every two same-typed leaves or list elements, plus structured substitutions (other policy/keys, opaque satisfied branch, surplus/garbage signature, swapped signatures, proposed instead of current keys, foreign renewal keys); the block is re-sealed, never re-signed; oracle: rejected unless the path is outside the template's signed set (counted as unspecified); era replay of v1 signatures across every fork height")
+	c.Set("rule", "for every network family and EVERY height up to the horizon (one state per height, contracts formed and keys rotated on the way) every applicable signed template is validated untampered (must be accepted) and under every single-point tampering: reflection walk over every field of the signed transaction (+-1, first/last byte flips of every hash/key/address/signature, drop/duplicate of every list element), exchange of the contents of every two same-typed leaves or list elements, plus structured substitutions (other policy/keys, opaque satisfied branch, surplus/garbage signature, swapped signatures, proposed instead of current keys, foreign renewal keys, re-targeting of every revision/resolution of a transaction with a signed input to every other live contract); the block is re-sealed, never re-signed; oracle: rejected unless the path is outside the template's signed set (counted as unspecified); era replay of v1 signatures across every fork height")
 	keys := chain.NewKeys(c.Seed)
 	nets := []string{"v1-eras", "mixed", "v2-only"}
 	if !c.Quick() {
@@ -1065,7 +1144,7 @@ func run(c *vf.Ctx) {
 		})
 		c.Count("traces_validated_against_impl", 1)
 	})
-	need := []string{"untampered_accepted", "tampered_rejected", "era_replay_rejected", "unauthorized_foundation_rejected", "partial_sighash_binding_checked", "ephemeral_thief_rejected"}
+	need := []string{"untampered_accepted", "tampered_rejected", "era_replay_rejected", "unauthorized_foundation_rejected", "partial_sighash_binding_checked", "ephemeral_thief_rejected", "retarget_probes"}
 	for _, tp := range tps {
 		need = append(need, "template:"+tp.name)
 	}
